@@ -592,10 +592,10 @@ func VerifQueueConcurrent() {
 				if spins > verifParam("spins", 3) && !done[0] {
 					// give up polling until the producer has finished (bounds the schedule space)
 					for !done[0] {
-						verifYield()
+						verifPoll()
 					}
 				}
-				verifYield()
+				verifPoll()
 				continue
 			}
 			want := eventData(received, sizes[received])
@@ -627,5 +627,44 @@ func VerifQueueConcurrent() {
 	n, _ := s.r.Next()
 	verifAssert(n == 100, "and delivers them")
 	s.r.Done()
+	verifReach("end")
+}
+
+// VerifQueueChunks (C05): one small complete event, then a multi-page event
+// written in several large Write calls, so that the automatic flush inside
+// Write happens while the unfinished event already spans further buffer pages.
+func VerifQueueChunks() {
+	s := newQ(64, uint(verifParam("wbuf", 0)))
+	first := []int{1, qPayload - szEventHeader, 100}
+	verifAssert(s.appendEvent(first[verifChoose(len(first))], 1), "append succeeds")
+	chunkSizes := []int{3000, 2500, qPayload, 2 * qPayload, 700}
+	nChunks := 2 + verifChoose(2)
+	e := len(s.events)
+	total := 0
+	var parts []int
+	for c := 0; c < nChunks; c++ {
+		n := chunkSizes[verifChoose(len(chunkSizes))]
+		parts = append(parts, n)
+		total += n
+	}
+	data := eventData(e, total)
+	rest := data
+	for _, n := range parts {
+		verifLogU64("chunk", uint64(n))
+		k, err := s.w.Write(rest[:n])
+		s.sync()
+		verifAssert(err == nil && k == n, "Write of a chunk succeeds on a nearly empty file")
+		rest = rest[n:]
+	}
+	verifAssert(s.w.Next() == nil, "Next succeeds")
+	s.events = append(s.events, data)
+	s.sync()
+	verifAssert(s.appendEvent(50, 1), "append succeeds")
+	verifAssert(s.flush(), "Flush succeeds")
+	s.checkCounters("after the flush")
+	s.readEvents(4, 4096)
+	verifAssert(s.read == 3, "all three events were delivered in order")
+	s.ack(3)
+	s.checkCounters("after the ACK")
 	verifReach("end")
 }
